@@ -77,6 +77,9 @@ func cmdC06(r *RNG, n int, e *Emitter, args []string) {
 			continue
 		}
 		G := grids[r.Intn(len(grids)-1)]
+		if r.Intn(6) == 0 {
+			G = int64(1) << uint(22+r.Intn(6)) // 4e6 .. 1.3e8: three-factor products of such differences exceed 2^63, two-factor ones do not
+		}
 		var info GenInfo
 		info.Grid = G
 		nm := 8
